@@ -122,8 +122,17 @@ def total_variation(case, ctx):
     nzc = set(np.nonzero(c)[0].tolist())
     ctx.check(nzc <= allowed, "pseudo-cyclic series is non-zero away from reported peaks: %s" % sorted(nzc - allowed)[:5])
     want = tv / 2 + np.sign(last) * off / 2
+    wants = [want]
+    if not exact:
+        # the direction of the final movement is a discontinuous functional: when the last movement is smaller than the
+        # rounding of (x - x[0]) it vanishes in the rebased series and the previous movement becomes the final one
+        rb = a - a[0]
+        drb = np.diff(rb)
+        if np.any(drb):
+            wants.append(tv / 2 + np.sign(drb[np.nonzero(drb)[0][-1]]) * off / 2)
     csum = float(np.sum(c.astype(LD)))
-    ctx.check(abs(csum - want) <= tol, "pseudo-cyclic series sums to %r, expected TV/2 + sign(final movement)*(end-start)/2 = %r" % (csum, want))
+    ctx.check(any(abs(csum - w_) <= tol for w_ in wants),
+              "pseudo-cyclic series sums to %r, expected TV/2 + sign(final movement)*(end-start)/2 = %r" % (csum, want))
     # constant shift (exactly representable): identical output
     if exact and case["offset"] != 0:
         shift = case["offset"] if how != "int" else float(int(case["offset"] * 8))
